@@ -78,10 +78,10 @@ theorem gen_validators :
     Gen.Schema.relatedObjectValidators = ["_validate_model@model_validator(mode='after')"] ∧
     Gen.Schema.displayHintValidators = [] := by decide
 
-/-- sanity of the translated value lists the invariants refer to -/
+/-- the one fact the theorems need about the translated value lists: no allowed dtype name is empty
+(the lists themselves are whatever `_valid_values.py` says — the model and `Schema.Spec` use them as they are) -/
 theorem gen_valid_values :
-    Gen.ValidValues.axisTypes = ["space", "time", "channel"] ∧ "str" ∈ Gen.ValidValues.dtypes ∧
-    "float16" ∉ Gen.ValidValues.dtypes ∧ (∀ d ∈ Gen.ValidValues.dtypes, 1 ≤ d.length) := by decide
+    (∀ d ∈ Gen.ValidValues.dtypes, 1 ≤ d.length) ∧ Gen.ValidValues.axisTypes ≠ [] := by decide
 
 /-! ## The property
 
